@@ -110,7 +110,7 @@ theorem c03_teardown_events_after_main (cfg : Cfg) (s m t : List Node) (sub : Op
       tdEvents = ((execTd cfg t sub (mainOf cfg m sub td (setupOf cfg s sub td st).1).1).1.events).drop
         (mainOf cfg m sub td (setupOf cfg s sub td st).1).1.events.length := by
   rw [c03_teardown_runs_after_main_however_it_ended cfg s m t sub td st hsetup hnot0 hnot1]
-  obtain ⟨es, h⟩ := exec_ext.execTd_ext cfg t sub (mainOf cfg m sub td (setupOf cfg s sub td st).1).1
+  obtain ⟨es, h, _⟩ := exec_ext.execTd_ext cfg t sub (mainOf cfg m sub td (setupOf cfg s sub td st).1).1
   exact ⟨es, h, by simp [h]⟩
 
 /-- non-vacuity: main raises, both teardown phases still run, in order, after main, and before the
